@@ -211,6 +211,9 @@ def expand_aliases(fn: FunctionInfo, expr: ast.expr, node: Optional[Node] = None
         if isinstance(n, ast.Name) and isinstance(n.ctx, ast.Load):
             at = rd.node_of(n) or node
             srcs = value_sources(fn, n, at)
+            if len(srcs) == 1 and srcs[0][0] == "unpack" and isinstance(srcs[0][1][0], (ast.Tuple, ast.List)) and srcs[0][1][1] is not None \
+                    and srcs[0][1][1] < len(srcs[0][1][0].elts):
+                srcs = [("expr", srcs[0][1][0].elts[srcs[0][1][1]])]        # lower, upper = (self.min, self.max)
             if len(srcs) == 1 and srcs[0][0] == "expr" and not isinstance(srcs[0][1], (ast.Name, ast.Constant)) \
                     and pure(srcs[0][1]) and srcs[0][1] is not n:
                 mapping[id(n)] = srcs[0][1]
@@ -288,7 +291,7 @@ def def_types(an: Analysis, fn: FunctionInfo, name: ast.Name, node: Node):
     return frozenset(out) if out else ANY
 
 
-def guard_atoms(an: Analysis, fn: FunctionInfo, target: Node, avoid=None) -> List[Tuple[ast.expr, bool, Node]]:
+def guard_atoms(an: Analysis, fn: FunctionInfo, target: Node, avoid=None, extra=()) -> List[Tuple[ast.expr, bool, Node]]:
     """What is known to hold at *target*, as (expression, truth, test node) atoms: the dominating test outcomes with local
     boolean flags replaced by what they were computed from (`trusted = is_proxy and self._ok(x)` ... `if trusted:`), conjunctions
     known true / disjunctions known false split into their parts, negations pushed down.  A flag is only expanded when it has
@@ -335,4 +338,6 @@ def guard_atoms(an: Analysis, fn: FunctionInfo, target: Node, avoid=None) -> Lis
                 add(fd[0], truth, t, depth + 1)
     for t, tr in dominating_guards(an, fn, target, avoid):
         add(t.ast, tr, t)
+    for e, tr in extra:             # conditions known for another reason (the test of the conditional expression the target sits in)
+        add(e, tr, target)
     return out
